@@ -311,6 +311,10 @@ package cache
 //@   abstract
 //@   nosafety all pre
 //@   assert at call (*middleware/cache.Store).setFromResponseWithKey$2#1: arg0 == lastret("middleware/cache.filterCacheableAnswer")
+//@   # C19: the scoped-TTL cap is the LAST step of the lifetime computation: the entry's ttl is the cap applied to the
+//@   # floored/ceiled value, so the 5 s floor can never lift a scoped entry above the configured scoped limit
+//@   assert at call (*middleware/cache.Store).setFromResponseWithKey$2#1: arg1 == lastret("(*middleware/cache.Store).setFromResponseWithKey$1")
+//@   assert at call (*middleware/cache.Store).setFromResponseWithKey$1#1: arg0 == lastret("(middleware/cache.TTLManager).Calculate")
 //@ func (*Store).setFromResponseWithKey$2
 //@   abstract
 //@   nosafety all pre
@@ -608,3 +612,31 @@ package cache
 //@   assert at call middleware/cache.denialProofExpiry#2: arg0 == now && arg1 == c.maxTTL && arg2 == entry_cutUntil
 //@   assert at call middleware/cache.newDenialProofEntry#1: arg2 == now && arg3 == lastret("middleware/cache.denialProofExpiry#1") && lastret("middleware/cache.denialProofExpiry#1", 1)
 //@   assert at call middleware/cache.newDenialProofEntry#2: arg2 == now && arg3 == lastret("middleware/cache.denialProofExpiry#2") && lastret("middleware/cache.denialProofExpiry#2", 1)
+//@
+//@ # ---- C11: an admitted query whose request tree ended is answered or silently dropped by ONE rule: the tree's
+//@ # EFFECTIVE error (the wall-clock deadline counts even before the context's timer published it). Deadline exceeded
+//@ # -> exactly one request-local SERVFAIL is written and the chain stops; anything else (client gone) -> no write,
+//@ # the chain stops. The failure reply is written once, marked request-local, and never cached.
+//@ func (*Cache).stopCanceledRequest
+//@   abstract
+//@   nosafety all pre
+//@   assert at call internal/contextutil.EffectiveError#1: arg0 == ctx
+//@   assert at call errors.Is#1: arg0 == lastret("internal/contextutil.EffectiveError")
+//@   assert at call (*middleware/cache.Cache).writeRequestLocalFailure#1: lastret("errors.Is") && arg2 == ch && arg3 == lastret("internal/contextutil.EffectiveError") && calls("(*middleware.Chain).Cancel") == 0
+//@   assert at call (*middleware.Chain).Cancel#1: !lastret("errors.Is") && calls("(*middleware/cache.Cache).writeRequestLocalFailure") == 0
+//@
+//@ func (*Cache).writeRequestLocalFailure
+//@   abstract
+//@   nosafety all pre
+//@   assert at call (middleware.ResponseWriter).WriteMsg#1: arg1 == lastret("middleware/cache.cleanRequestLocalFailureResponse") && calls("(middleware.ResponseWriter).WriteMsg") == 0 && calls("middleware.MarkRequestLocalFailureResponse") == 1
+//@   assert at call middleware.MarkRequestLocalFailureResponse#1: arg1 == lastret("middleware/cache.cleanRequestLocalFailureResponse") && arg2 == err
+//@   assert at call (*middleware.Chain).Cancel#1: calls("(middleware.ResponseWriter).WriteMsg") == 1
+//@
+//@ # ---- C19: whether this request may consume or create SHARED synthesised denials is read back from the request TREE
+//@ # (the context marker an outer CD/ECS query installed is inherited by alias-chase and internal sub-queries), not
+//@ # recomputed from this one message's own CD/ECS bits; the write-back gate of the response writer gets that value
+//@ func (*Cache).ServeDNS
+//@   abstract
+//@   nosafety all pre
+//@   assert at store cache.ResponseWriter.requestTreeBypassesSharedDenial#1: value == lastret("middleware/cache.sharedDenialBypass")
+//@   assert at call middleware/cache.sharedDenialBypass#1: calls("middleware/cache.sharedDenialBypass") == 0
